@@ -185,6 +185,7 @@ class Exec:
         #       within the depth limit, otherwise the walk raises and the query is inconclusive.
         self.ctor = ctor
         self.unroll = unroll
+        self.stop_blocks = set()   # segment execution: a path that (re)enters one of these blocks ends there
         self.bodies = bodies
         self.smt = smt
         self.models = models or {}
@@ -215,6 +216,13 @@ class Exec:
         p = p.strip()
         while p.startswith("(") and p.endswith(")") and self._balanced(p[1:-1]):
             p = p[1:-1].strip()
+        mv = re.match(r"^\(\(\*(_\d+)\) as variant#(\d+)\)\.(\d+): [^()]*(\(.*\))?[^()]*$", p)
+        if mv and self._balanced(p):
+            refterm = self.place(env, mv.group(1))
+            hv = env.get("__heap", {}).get((refterm, "v%s.%s" % (mv.group(2), mv.group(3))))
+            if hv is not None:
+                return hv
+            return "(%s (%s %s))" % (self.smt.fun("fld_%s" % mv.group(3), 1), self.smt.fun("as_variant_%s" % mv.group(2), 1), mk_deref(refterm))
         m = re.match(r"^\*(.+)$", p)
         if m:
             return mk_deref(self.place(env, m.group(1)))
@@ -276,6 +284,13 @@ class Exec:
             env["__heap"] = heap
             env.setdefault("__writes", [])
             env["__writes"] = env["__writes"] + [(refterm, mw.group(2), val)]
+            return
+        mv = re.match(r"^\(\(\(\*(_\d+)\) as variant#(\d+)\)\.(\d+): .+\)$", lhs)
+        if mv:
+            refterm = self.place(env, mv.group(1))
+            heap = dict(env.get("__heap", {}))
+            heap[(refterm, "v%s.%s" % (mv.group(2), mv.group(3)))] = val
+            env["__heap"] = heap
             return
         mw = re.match(r"^\(\*(_\d+)\)$", lhs)
         if mw and self.ctor and val.startswith("(C_tuple"):
@@ -431,6 +446,9 @@ class Exec:
     def _walk(self, body, bb, env, pc, calls, results, depth):
         if len(results) > self.max_paths or depth > 400:
             raise ValueError("path explosion in %s" % body.name)
+        if depth > 0 and bb in self.stop_blocks:
+            results.append((list(pc), "STOP:" + bb, list(calls), dict(env)))
+            return
         env = dict(env)
         stmts = body.blocks[bb]
         for st in stmts[:-1]:
